@@ -11,6 +11,7 @@ import (
 	"log"
 	"math/rand"
 	"os"
+	"strings"
 	"sync"
 	"time"
 
@@ -138,7 +139,15 @@ func main() {
 		}
 		side.Case = summary
 		if len(fs) > 0 {
-			side.Monitor = &coqfmt.Monitor{Signature: fs[0].Signature, What: fs[0].What + " [" + sc.Name + "]"}
+			// one monitor line per case: a class-independent finding (whole-batch resend) goes before the class-labelled ones
+			pick := fs[0]
+			for _, f := range fs {
+				if strings.HasPrefix(f.Signature, "c05:retry-batch:") {
+					pick = f
+					break
+				}
+			}
+			side.Monitor = &coqfmt.Monitor{Signature: pick.Signature, What: pick.What + " [" + sc.Name + "]"}
 		}
 		if *dump {
 			for _, e := range res.Events {
